@@ -1,6 +1,7 @@
 package rules
 
 import (
+	"fmt"
 	"go/ast"
 	"go/token"
 	"go/types"
@@ -121,4 +122,129 @@ func replaceIdent(info *types.Info, e ast.Expr, obj types.Object) string {
 	}
 	s = walk(e)
 	return s
+}
+
+// orderedSlice reports whether the slice variable obj of function f is, at node `at`, known to be ordered
+// by a strict comparator `want` (GTR: descending). Order is established by (a) a dominating
+// sort.Slice on obj with a strict `want` comparator, (b) obj being the result of a repository
+// function all of whose returns yield such a slice, or (c) obj being filled only by appends inside a
+// range over a slice that is itself ordered (order-preserving map/filter).
+func orderedSlice(p *core.Prog, f *core.Func, obj types.Object, at *core.GNode, want token.Token, depth int) (bool, string) {
+	if depth > 8 || obj == nil {
+		return false, "order provenance too deep"
+	}
+	info := f.Pkg.TypesInfo
+	g := p.Graph(f)
+	why := "no strict " + want.String() + " sort establishes the order of " + obj.Name()
+	for _, n := range stmtNodes(g) {
+		for _, si := range sortCalls(info, n.Ast) {
+			if si.SliceObj != obj {
+				continue
+			}
+			if !si.Decided || !si.Strict || si.Op != want {
+				why = fmt.Sprintf("the sort of %s uses comparator %s (want strict %s)", obj.Name(), si.Op, want)
+				continue
+			}
+			if at == nil || (g.Dominates(n, at) && !reassignedBetween(g, info, n, at, obj)) {
+				return true, "sorted by " + si.KeyI + " " + si.Op.String()
+			}
+		}
+	}
+	// definitions of obj
+	var defs []ast.Expr
+	appendsOnly := true
+	var appendRanges []*ast.RangeStmt
+	ast.Inspect(f.Body, func(n ast.Node) bool {
+		switch s := n.(type) {
+		case *ast.AssignStmt:
+			for i, l := range s.Lhs {
+				if core.ObjOf(info, l) != obj {
+					continue
+				}
+				var rhs ast.Expr
+				if len(s.Rhs) == len(s.Lhs) {
+					rhs = s.Rhs[i]
+				} else if len(s.Rhs) == 1 {
+					rhs = s.Rhs[0]
+				}
+				if c, ok := core.Unparen(rhs).(*ast.CallExpr); ok && core.BuiltinName(info, c) == "append" && len(c.Args) == 2 && core.ObjOf(info, c.Args[0]) == obj {
+					if rs := enclosingRange(f.Body, s); rs != nil {
+						appendRanges = append(appendRanges, rs)
+					} else {
+						appendsOnly = false
+					}
+					continue
+				}
+				if c, ok := core.Unparen(rhs).(*ast.CallExpr); ok && core.BuiltinName(info, c) == "make" {
+					continue
+				}
+				defs = append(defs, rhs)
+			}
+		case *ast.ValueSpec:
+			for i, nm := range s.Names {
+				if info.Defs[nm] == obj && i < len(s.Values) {
+					defs = append(defs, s.Values[i])
+				}
+			}
+		}
+		return true
+	})
+	if len(defs) == 1 && len(appendRanges) == 0 {
+		if c, ok := core.Unparen(defs[0]).(*ast.CallExpr); ok {
+			if fn := core.Callee(info, c); fn != nil {
+				if callee := p.ByObj[fn]; callee != nil && callee.Body != nil {
+					return returnsOrdered(p, callee, want, depth+1)
+				}
+			}
+		}
+	}
+	if len(defs) == 0 && len(appendRanges) > 0 && appendsOnly {
+		for _, rs := range appendRanges {
+			so := core.ObjOf(info, rs.X)
+			if _, isSlice := info.TypeOf(rs.X).Underlying().(*types.Slice); !isSlice || so == nil {
+				return false, obj.Name() + " is filled while ranging over " + core.ExprStr(rs.X) + ", which has no defined order"
+			}
+			ok, w := orderedSlice(p, f, so, g.NodeOf(rs.X.Pos()), want, depth+1)
+			if !ok {
+				return false, w
+			}
+		}
+		return true, "filled in order from an ordered slice"
+	}
+	return false, why
+}
+
+// returnsOrdered: every return of callee yields a slice ordered by `want` (or forwards such a call).
+func returnsOrdered(p *core.Prog, callee *core.Func, want token.Token, depth int) (bool, string) {
+	info := callee.Pkg.TypesInfo
+	g := p.Graph(callee)
+	rets := g.Returns()
+	if len(rets) == 0 {
+		return false, callee.Key + " has no return"
+	}
+	for _, rn := range rets {
+		res := returnResults(rn)
+		if len(res) < 1 {
+			return false, "bare return in " + callee.Key
+		}
+		if core.IsNil(info, res[0]) {
+			continue
+		}
+		if c, ok := core.Unparen(res[0]).(*ast.CallExpr); ok {
+			if fn := core.Callee(info, c); fn != nil {
+				if c2 := p.ByObj[fn]; c2 != nil && c2.Body != nil && c2 != callee {
+					if ok, w := returnsOrdered(p, c2, want, depth+1); !ok {
+						return false, w
+					}
+					continue
+				}
+			}
+			return false, callee.Key + " returns the result of an unknown call"
+		}
+		ok, w := orderedSlice(p, callee, core.ObjOf(info, res[0]), rn, want, depth+1)
+		if !ok {
+			return false, callee.Key + ": " + w
+		}
+	}
+	return true, callee.Key + " returns an ordered slice"
 }
